@@ -85,6 +85,16 @@ CLAIMED["C11"] = ("model_checking",
   "All sequences of <=5 (thorough 7) values over a 6-value universe under 18 stateless pipelines (regex with cache sizes 0/1/2 and per-record patterns, --set variables and macros that read ^ / a variable, --split-by, selected names, define/set/fold) in six output styles must print exactly the header followed by the bodies each value prints on its own; this covers every concatenation A.B, permutation and duplication within the bound.",
   "No & selector and no stateful option is used (the property excludes them).",
   "DESIGN.md §5 C11")
+CLAIMED["C12"] = ("model_checking",
+  "exhaustive enumeration of (observer body x enclosing context x binding form x placement x bound value x select position x split) on jawk::go; differential inside one run (bound form versus hand-substituted form) plus the reference evaluator",
+  "13 observer bodies (the bound name next to ., ^., ^^., ^^^., another variable, another macro, a selected name) in 9 enclosing contexts (top level, map, filter, fold, sort_by, map_values, pipe stage, pipe-then-map, flat_map) under 18 binding forms (set, define and aliases, --set variable/macro, nesting both ways, shadowing, unused names, macros reading outer variables or ^), with the binding outside or inside the functional argument, as the 1st..4th --select, with and without --split-by: the bound and the substituted selection must have the same value in the same run and agree with the reference evaluator; the same expression in four --select positions must give four equal values.",
+  "/name/ inside functional arguments and pipe stages is unspecified by the documentation and only compared pairwise; ^ beyond the chain of enclosing inputs likewise.",
+  "DESIGN.md §5 C12")
+CLAIMED["C13"] = ("model_checking",
+  "exhaustive enumeration of aliases x argument tuples, expressions x option positions x input histories, expressions x spellings, and (cache size x pattern/subject histories), all on jawk::go, with differential oracles inside the implementation and the regex crate as reference for the cache",
+  "Every alias against its canonical name on all documented examples and all argument tuples (arity <=3) over 6 atoms; 48 expressions as first/later --select, --filter, --sort-by (both directions), --group-by, --split-by, --set macro, --set variable (late positions also behind another --select, everything also after --split-by) over all sequences of <=3 (thorough 4) values over 5 records: rows kept / ordered / grouped / produced must be those the selected values dictate; 40 expressions in 14 spellings (separators, padding before the closing parenthesis, leading-dot sugar, commas directly after variables, macros, keys, numbers, strings) must have one value; cache sizes 0/1/2/64 over all sequences of <=4 (thorough 5) (subject, pattern) pairs must give the regex crate's own answers.",
+  "Padding directly after the opening parenthesis is not documented and not demanded.",
+  "DESIGN.md §5 C13")
 NOT_YET = {}
 props=[json.loads(l) for l in open('/verif/properties.jsonl')]
 checks=[]; na=[]
